@@ -50,7 +50,15 @@ type paramFx struct {
 func newParamFx(rules map[string]*annotations.HttpRule) (*paramFx, error) {
 	p := &paramFx{}
 	h := func(ctx context.Context, in *dynamicpb.Message) (proto.Message, error) {
+		// what the handler holds is what it can pass on: the message is observed through its
+		// wire form (fields smuggled in as unknown bytes are decoded like any peer would)
 		p.got = in
+		if b, err := proto.Marshal(in); err == nil {
+			m2 := dynamicpb.NewMessage(in.Descriptor())
+			if proto.Unmarshal(b, m2) == nil {
+				p.got = m2
+			}
+		}
 		return dynamicpb.NewMessage(in.Descriptor().ParentFile().Messages().ByName("Reply")), nil
 	}
 	var ms []*MethodSpec
@@ -939,6 +947,32 @@ func c07Extra(c *Ctx) {
 				c.SpecFail("path-wins-upload", in, fmt.Sprintf("%d %s panic=%v", rec.Code, truncS(rec.Body.String(), 120), pn), "200", "C07/extra/refused", "a valid upload is refused")
 			} else if g := field(got, "name"); g != "PATH" {
 				c.SpecFail("path-wins-upload", in, "name="+g, "PATH", "C07/path-overridden/upload-name", "on an HttpBody upload a query parameter replaced the value captured from the path")
+			}
+		}
+	}
+	// body media types the mux may or may not decode: refused, or the captured value is what the handler sees
+	for _, b := range []struct{ verb, target, ct, body string }{
+		{"POST", "/c07x/oab/PATH", "application/x-www-form-urlencoded", "oa=BODY"},
+		{"POST", "/c07x/oab/PATH?oa=QUERY", "application/x-www-form-urlencoded; charset=utf-8", "name=n&oa=BODY"},
+		{"POST", "/c07x/oab/PATH", "multipart/form-data; boundary=x", "--x\r\nContent-Disposition: form-data; name=\"oa\"\r\n\r\nBODY\r\n--x--\r\n"},
+		{"POST", "/c07x/oab/PATH", "text/plain", "oa=BODY"},
+		{"POST", "/c07x/oab/PATH", "application/json; charset=utf-8", `{"oa":"BODY"}`},
+		{"POST", "/c07x/oab/PATH", "", `{"oa":"BODY"}`},
+	} {
+		got = nil
+		r := httptest.NewRequest(b.verb, b.target, strings.NewReader(b.body))
+		if b.ct != "" {
+			r.Header.Set("Content-Type", b.ct)
+		}
+		rec, pn := fx.Serve(r)
+		in := fmt.Sprintf("%s %s Content-Type=%q body=%q", b.verb, b.target, b.ct, b.body)
+		c.Eval("path-wins-media", in, true)
+		c.Class("extra:media:" + map[bool]string{true: "dispatched", false: "refused"}[got != nil])
+		if pn != nil {
+			c.SpecFail("path-wins-media", in, fmt.Sprint("panic: ", pn), "a response", "C07/extra/panic", "a request body of another media type panics")
+		} else if got != nil {
+			if g := field(got, "oa"); g != "PATH" {
+				c.SpecFail("path-wins-media", in, fmt.Sprintf("%d oa=%s", rec.Code, g), "PATH (or the request is refused)", "C07/path-overridden/oa", "a body value replaced the value captured from the path")
 			}
 		}
 	}
